@@ -111,8 +111,24 @@ def correspond(chk, area, exe, ops, case_start=("init", "case"), harness_args=()
     # concrete failures of the implementation first; bare correspondence differences only when the
     # run (which is the search) found no failing input
     concrete = [x for x in problems if x[1][1] != "diff"]
-    todo = sorted(concrete, key=lambda x: len(x[0]))[:max_reports * 3] or \
-        sorted([x for x in problems if x[1][1] == "diff"], key=lambda x: len(x[0]))[:max_reports]
+    pool = concrete or [x for x in problems if x[1][1] == "diff"]
+    # round-robin over (pre-shrink) signatures, smallest cases first, so that a flood of one kind of failure
+    # (e.g. a known finding) cannot hide another kind
+    groups = {}
+    for x in sorted(pool, key=lambda x: len(x[0])):
+        case, (i, kind, detail) = x
+        try:
+            k = str(sorted((sig_of(kind, detail, case[:i + 1]) if sig_of else {"kind": kind}).items()))
+        except Exception:
+            k = kind
+        groups.setdefault(k, []).append(x)
+    todo = []
+    depth = 0
+    while len(todo) < max_reports * 4 and any(len(g) > depth for g in groups.values()):
+        for g in groups.values():
+            if len(g) > depth:
+                todo.append(g[depth])
+        depth += 1
     reported = 0
     sigs = set()
     for case, (i, kind, detail) in todo:
